@@ -298,10 +298,12 @@ def check(case):
       # dense operator from the eigen-decomposition of the sketch covariance;
       # eigenvalues below 1e-12 of the largest are rounding noise of a
       # rank-deficient sketch and count as exactly 0 (inverse of 0 is 0).
-      lam, vec = np.linalg.eigh(S)
-      lam = np.where(lam > 1e-12 * max(lam[-1], 1e-300), lam, 0.0)
+      lam_raw, vec = np.linalg.eigh(S)
+      lam = np.where(lam_raw > 1e-12 * max(lam_raw[-1], 1e-300), lam_raw, 0.0)
       if alg == "S_ADA":
-        d = alpha + lam
+        # with alpha > 0 nothing is inverted at 0: small eigenvalues are kept as they are (a genuine 1e-8 eigenvalue
+        # next to a 1e4 one changes (alpha + lam)^(-1/2) by lam / (2 alpha), which the 1e-7 tolerance below sees)
+        d = alpha + (np.maximum(lam_raw, 0.0) if alpha > 0 else lam)
         fd = np.where(d > 0, 1.0 / np.sqrt(np.where(d > 0, d, 1.0)), 0.0)
       elif alg == "ADA_FD":
         fd = 1.0 / (alpha + np.sqrt(lam))
